@@ -209,7 +209,8 @@ def uncompared_fields(chk, it, dcs):
         for f in c.fields:
             if not f[2]:
                 fields.append((c, f[0]))
-    chk.require(len(fields) >= 4, f"expected >= 4 compare=False fields, found {len(fields)}")
+    if not fields:
+        chk.notes.append("R13.3: no dataclass field is excluded from comparison any more; the clause is vacuous")
     reads = {fn: [] for _, fn in fields}
     for rel, tree in iter_sources(chk):
         qm = qualname_map(tree)
@@ -219,8 +220,8 @@ def uncompared_fields(chk, it, dcs):
             for n in ast.walk(node):
                 if isinstance(n, ast.Attribute) and isinstance(n.ctx, ast.Load) and n.attr in reads:
                     reads[n.attr].append((rel, q))
-    refl = const_dict(chk, module_tree(chk, "utils.py"), "_op_reflect_map", "utils.py")
-    refl = {k: v.value for k, v in refl.items() if isinstance(v, ast.Constant)}
+    from ..rules_tables import probe_reflect_map
+    refl = probe_reflect_map(chk, it)
     for c, fname in fields:
         chk.instance("R13.3")
         sites = sorted({q for rel, q in reads[fname] if rel.split("/")[-1][:-3] in c.module.name})
